@@ -37,7 +37,7 @@ func init() {
 			"threads are deterministic functions of what they observed (timestamps are projected out of the observation hash), which is what makes state-key pruning sound",
 			"data-race freedom of a storage backend is not decidable by a cooperative scheduler: it is looked at by a separate free-running -race pass (supporting evidence, sampling of schedules)",
 		},
-		RequiredFloors: []string{"loser:exists", "loser:pending", "both-proceed-sequentially", "three-threads", "lock-level"},
+		RequiredFloors: []string{"loser:exists", "loser:pending", "both-proceed-sequentially", "three-threads", "lock-level", "read-during-pending-rollback"},
 	})
 }
 
@@ -65,6 +65,17 @@ func scenarios(thorough bool) []*gate.Scenario {
 			&gate.Scenario{Name: "upgrade||upgrade||upgrade", Driver: drv, Setup: []hx.Op{{Kind: "install", Chart: chartA}},
 				Ops: []hx.Op{{Kind: "upgrade", Chart: chartB}, {Kind: "upgrade", Chart: chartC}, {Kind: "upgrade", Chart: chartA}}, Bound: b3},
 		)
+		// a failing atomic upgrade (its PATCH of ConfigMap a is rejected, so Helm rolls back on its own and the history
+		// passes through pending-rollback) against a plain upgrade
+		out = append(out, &gate.Scenario{Name: "upgrade-atomic-failing||upgrade", Driver: drv, Setup: []hx.Op{{Kind: "install", Chart: chartA}},
+			Ops:   []hx.Op{{Kind: "upgrade", Chart: chartB, Atomic: true}, {Kind: "upgrade", Chart: chartC}},
+			Fault: &sim.Fault{Label: "PATCH configmaps/a", Occurrence: 0, Kind: "reject", OnThread: 1}, Bound: 2})
+		if drv != "memory" {
+			// the create of the first upgrade's revision record times out at the server without being persisted
+			out = append(out, &gate.Scenario{Name: "upgrade(create-times-out)||upgrade", Driver: drv, Setup: []hx.Op{{Kind: "install", Chart: chartA}},
+				Ops:   []hx.Op{{Kind: "upgrade", Chart: chartB}, {Kind: "upgrade", Chart: chartC}},
+				Fault: &sim.Fault{Label: "POST " + drv + "/sh.helm.release.v1.r.v2", Occurrence: 0, Kind: "timeout", OnThread: 1}, Bound: -1})
+		}
 		if thorough {
 			out = append(out,
 				// (upgrade||rollback is deliberately absent: the statement quantifies over install and upgrade operations only;
@@ -175,6 +186,50 @@ func oracle(c *core.Ctx, ex *gate.Exec) {
 		c.Violate(prop, key, fmt.Sprintf("%s: %s [scenario=%s driver=%s final=(%s) schedule=%s]", inv, what, sc.Name, sc.Driver, hx.StatusVector(ex.World.History("r")), strings.Join(tr, " ")),
 			replayData{Scenario: sc, Choices: ex.Choices, Key: key})
 	}
+	if sc.Fault != nil && strings.HasPrefix(sc.Name, "upgrade-atomic-failing") {
+		// A failing atomic upgrade rolls back on its own, and a rollback racing an upgrade is outside the statement
+		// (see the note in scenarios()). What the statement does require is judged here alone: while the automatic
+		// rollback's revision is pending (from its record creation by thread 0 to thread 0's last record update), an
+		// upgrade that reads the history must fail with operation-in-progress and create nothing.
+		isCreate := func(l string) bool {
+			return strings.HasPrefix(l, "store:Create ") || (strings.HasPrefix(l, "POST ") && strings.Contains(l, "sh.helm.release.v1."))
+		}
+		isUpdate := func(l string) bool {
+			return strings.HasPrefix(l, "store:Update ") || (strings.HasPrefix(l, "PUT ") && strings.Contains(l, "sh.helm.release.v1."))
+		}
+		isRead := func(l string) bool {
+			return strings.HasPrefix(l, "store:Query") || strings.HasPrefix(l, "store:List") || l == "GET secrets" || l == "GET configmaps"
+		}
+		creates0, rollbackCreate, lastUpdate0, firstRead1 := 0, -1, -1, -1
+		for i, st := range ex.Trace {
+			switch {
+			case st.Thread == 0 && isCreate(st.Label):
+				creates0++
+				if creates0 == 2 {
+					rollbackCreate = i
+				}
+			case st.Thread == 0 && isUpdate(st.Label):
+				lastUpdate0 = i
+			case st.Thread == 1 && isRead(st.Label) && firstRead1 < 0:
+				firstRead1 = i
+			}
+		}
+		created1 := false
+		for _, e := range ex.Logs[1] {
+			if e.Applied && ((e.Class == "record-write" && e.Verb == "POST") || (e.Class == "store-write" && strings.HasPrefix(e.Label, "store:Create "))) {
+				created1 = true
+			}
+		}
+		if rollbackCreate >= 0 && firstRead1 > rollbackCreate && firstRead1 < lastUpdate0 {
+			c.Floor("read-during-pending-rollback")
+			if created1 || !ex.Results[1].Failed {
+				violate("R6-in-progress", fmt.Sprintf("thread 1 (%s) read the history while thread 0's automatic rollback revision was pending (steps %d < %d < %d) and went ahead (created a revision: %v, error: %q)", sc.Ops[1].Short(), rollbackCreate, firstRead1, lastUpdate0, created1, ex.Results[1].Err))
+			} else if !strings.Contains(ex.Results[1].Err, "in progress") {
+				violate("R6-in-progress", fmt.Sprintf("thread 1 (%s) read the history while thread 0's automatic rollback revision was pending and failed with %q instead of operation-in-progress", sc.Ops[1].Short(), ex.Results[1].Err))
+			}
+		}
+		return
+	}
 	// who created which revision
 	creators := map[string][]int{}
 	createdBy := make([]int, len(sc.Ops))
@@ -205,7 +260,11 @@ func oracle(c *core.Ctx, ex *gate.Exec) {
 			violate("R2-loser-error", fmt.Sprintf("thread %d (%s) created no revision but reported success", t, sc.Ops[t].Short()))
 			continue
 		}
-		if !acceptableLoserError(res.Err) {
+		if sc.Fault != nil && sc.Fault.OnThread == t+1 && strings.Contains(res.Err, "injected") {
+			// the operation the fault was aimed at failed with that fault: it created nothing and must have changed nothing,
+			// which the clauses below check like for any other loser
+			c.Floor("faulted-operation-failed-with-its-fault")
+		} else if !acceptableLoserError(res.Err) {
 			violate("R2-loser-error", fmt.Sprintf("thread %d (%s) created no revision and failed with %q", t, sc.Ops[t].Short(), res.Err))
 		}
 		switch {
